@@ -154,7 +154,19 @@ fn subsets(items: &[u32], max: usize, ordered: bool, dup: bool) -> Vec<Vec<u32>>
         }
     }
     if max >= 3 && items.len() >= 3 {
-        out.push(items[..3].to_vec());
+        if ordered {
+            for &a in items {
+                for &b in items {
+                    for &c in items {
+                        if a != b && b != c && a != c {
+                            out.push(vec![a, b, c]);
+                        }
+                    }
+                }
+            }
+        } else {
+            out.push(items[..3].to_vec());
+        }
     }
     out
 }
